@@ -345,7 +345,7 @@ func initAtoms(o *OptNode) []any {
 
 func zeroText(vt string) string {
 	switch vt {
-	case "string", "um", "cc":
+	case "string", "um", "us", "cc":
 		return ""
 	case "bool", "tb":
 		return "false"
